@@ -519,7 +519,7 @@ fn mm_log(x: f64) -> serde_json::Value {
     }
 }
 
-pub fn record_minmax(path: &str, seed: u64, n: usize, rep: &mut Report) {
+pub fn record_minmax(path: &str, seed: u64, n: usize, with_serde: bool, rep: &mut Report) {
     use average::{Max, Merge, Min};
     let mut rng = Xoshiro256PlusPlus::seed_from_u64(seed);
     let mut out = std::io::BufWriter::new(std::fs::File::create(path).unwrap());
@@ -604,7 +604,9 @@ pub fn record_minmax(path: &str, seed: u64, n: usize, rep: &mut Report) {
                         let o = objs[i].as_ref().unwrap();
                         line = Some(json!({"op": "clone", "dst": i, "src": j, "mn": mm_log(o.0.min()), "mx": mm_log(o.1.max())}));
                     }
-                } else {
+                } else if with_serde {
+                    // Checkpoint is a (stuttering) action of MinMax.tla like of every family
+                    // specification, so recorded behaviours contain it under every property.
                     // JSON cannot carry +-inf: round trip only objects with finite fields
                     let o = objs[i].as_ref().unwrap();
                     if o.0.min().is_finite() && o.1.max().is_finite() {
